@@ -2,6 +2,7 @@ package main
 
 import (
 	"fmt"
+	"go/token"
 	"go/types"
 	"sort"
 	"strings"
@@ -85,10 +86,13 @@ func (f *Frame) scanInstr(in ssa.Instruction, li *loopInfo, depth int) {
 			}
 			if h := f.heapOfRoot(root); h != "" {
 				li.heaps[h] = true
+				li.noteWrite(h, root, depth)
 			}
 		}
 	case *ssa.MapUpdate:
-		li.heaps[ex.S.heapForMap(x.Map.Type().Underlying().(*types.Map))] = true
+		h := ex.S.heapForMap(x.Map.Type().Underlying().(*types.Map))
+		li.heaps[h] = true
+		li.noteWrite(h, x.Map, depth)
 	case *ssa.Alloc:
 		if x.Heap {
 			li.allocs = true
@@ -127,9 +131,13 @@ func (f *Frame) scanCall(c *ssa.CallCommon, li *loopInfo, depth int) {
 			li.allocs = true
 			li.heaps[ex.S.heapForSliceElem(c.Args[0].Type().Underlying().(*types.Slice).Elem())] = true
 		case "copy":
-			li.heaps[ex.S.heapForSliceElem(c.Args[0].Type().Underlying().(*types.Slice).Elem())] = true
+			h := ex.S.heapForSliceElem(c.Args[0].Type().Underlying().(*types.Slice).Elem())
+			li.heaps[h] = true
+			li.noteWrite(h, c.Args[0], depth)
 		case "delete":
-			li.heaps[ex.S.heapForMap(c.Args[0].Type().Underlying().(*types.Map))] = true
+			h := ex.S.heapForMap(c.Args[0].Type().Underlying().(*types.Map))
+			li.heaps[h] = true
+			li.noteWrite(h, c.Args[0], depth)
 		}
 		return
 	}
@@ -156,6 +164,7 @@ func (f *Frame) scanCall(c *ssa.CallCommon, li *loopInfo, depth int) {
 		}
 		for _, h := range ct.Modifies {
 			li.heaps[h] = true
+			li.unknownW[h] = true
 		}
 		if len(ct.Fresh) > 0 {
 			li.allocs = true
@@ -166,6 +175,21 @@ func (f *Frame) scanCall(c *ssa.CallCommon, li *loopInfo, depth int) {
 		return
 	}
 	li.all = true
+}
+
+// noteWrite records that the loop writes the object that root points to in heap h.
+// Roots defined outside the loop have a fixed address, which lets the loop-head
+// havoc keep every other object of the heap (frame); anything else is "unknown".
+func (li *loopInfo) noteWrite(h string, root ssa.Value, depth int) {
+	if depth > 0 {
+		li.unknownW[h] = true
+		return
+	}
+	if in, ok := root.(ssa.Instruction); ok && in.Block() != nil && li.blocks[in.Block()] {
+		li.unknownW[h] = true
+		return
+	}
+	li.writes[h] = append(li.writes[h], root)
 }
 
 // resolveName finds the value of a source-level name for loop li.
@@ -243,6 +267,28 @@ func (f *Frame) invEnv(li *loopInfo, phiVal func(*ssa.Phi) Val, st *State, vis m
 		}
 		if t, ok := f.ghostAtom(a); ok {
 			return t, true
+		}
+		if (strings.HasPrefix(a, "$i@") || strings.HasPrefix(a, "$k@")) && len(a) > 3 {
+			// range index of an enclosing loop, by ordinal
+			for _, oli := range f.loops {
+				if fmt.Sprint(oli.ordinal) != a[3:] {
+					continue
+				}
+				for _, in := range oli.head.Instrs {
+					if p, ok := in.(*ssa.Phi); ok && p.Comment == "rangeindex" {
+						t := f.val(p).T
+						if oli == li {
+							t = phiVal(p).T
+						}
+						if a[1] == 'k' {
+							return t, true
+						}
+						return "(+ " + t + " 1)", true
+					}
+				}
+			}
+			ex.fail("%s: no range-index loop %s", f.key, a)
+			return a, true
 		}
 		switch a {
 		case "$i", "$k":
@@ -397,7 +443,34 @@ func (f *Frame) enterLoop(li *loopInfo, back map[[2]*ssa.BasicBlock]bool) {
 		}
 		sort.Strings(hs)
 		for _, hname := range hs {
-			f.st.heaps[hname] = ex.decl("H."+hname+".lh", ex.heapSort(hname))
+			pre := ex.heapTerm(f.st, hname)
+			nh := ex.decl("H."+hname+".lh", ex.heapSort(hname))
+			f.st.heaps[hname] = nh
+			if li.unknownW[hname] {
+				continue
+			}
+			// frame: objects that exist at loop entry and are not written through a loop-invariant root keep their content
+			conds := []string{"(>= a " + f.st.wm + ")"}
+			okFrame := true
+			seenT := map[string]bool{}
+			for _, root := range li.writes[hname] {
+				rv := f.val(root)
+				t := rv.T
+				if rv.P != nil || t == "" {
+					okFrame = false
+					break
+				}
+				if _, isSl := root.Type().Underlying().(*types.Slice); isSl {
+					t = "(Slice.ptr " + t + ")"
+				}
+				if !seenT[t] {
+					seenT[t] = true
+					conds = append(conds, "(not (= a "+t+"))")
+				}
+			}
+			if okFrame {
+				ex.assume("(forall ((a Int)) (! (=> " + and(conds...) + " (= (select " + nh + " a) (select " + pre + " a))) :pattern ((select " + nh + " a))))")
+			}
 		}
 	}
 	for c := range li.cells {
@@ -438,6 +511,8 @@ func (f *Frame) enterLoop(li *loopInfo, back map[[2]*ssa.BasicBlock]bool) {
 		f.rangeVisCur[r] = hv
 	}
 	lh := ex.decl(f.pfx+fmt.Sprintf("loophead%d", li.ordinal), "Bool")
+	// an arbitrary iteration is only reachable if the loop was entered
+	ex.assume(implies(lh, f.pc))
 	f.pc = lh
 	ex.cover = append(ex.cover, lh)
 	envHead := f.invEnv(li, func(p *ssa.Phi) Val { return headPhi[p] }, f.st, headVis)
@@ -474,6 +549,31 @@ func (f *Frame) autoInvariants(li *loopInfo) []*SX {
 		if p, ok := in.(*ssa.Phi); ok && p.Comment == "rangeindex" {
 			sx, _ := parseSX("(<= (- 1) $k)")
 			out = append(out, sx)
+			// k < bound, where the header tests (k+1) < bound and bound is loop-invariant
+			for _, in2 := range li.head.Instrs {
+				add, ok := in2.(*ssa.BinOp)
+				if !ok || add.Op != token.ADD || add.X != ssa.Value(p) {
+					continue
+				}
+				for _, in3 := range li.head.Instrs {
+					cmp, ok := in3.(*ssa.BinOp)
+					if !ok || cmp.Op != token.LSS || cmp.X != ssa.Value(add) {
+						continue
+					}
+					if bi, ok := cmp.Y.(ssa.Instruction); ok && li.blocks[bi.Block()] {
+						continue
+					}
+					if bv, ok := f.regs[cmp.Y]; ok && bv.T != "" {
+						if sx2, err := parseSX("(and (< $k " + bv.T + ") (<= 0 " + bv.T + "))"); err == nil {
+							out = append(out, sx2)
+						}
+					} else if c, ok := cmp.Y.(*ssa.Const); ok {
+						if sx2, err := parseSX("(< $k " + f.val(c).T + ")"); err == nil {
+							out = append(out, sx2)
+						}
+					}
+				}
+			}
 		}
 	}
 	return out
